@@ -234,6 +234,10 @@ func (c *checker) runHistory(i int) {
 			return wm.Result{}, nil, false
 		}
 		res := env.Run(hh)
+		if res.Inconclusive != "" {
+			r.Inconclusive(fmt.Sprintf("history %d (%s run): %s", h.Index, name, res.Inconclusive))
+			return res, env, false
+		}
 		c.evalRun(hh, name, env, res)
 		return res, env, env.Quiescent
 	}
@@ -279,7 +283,7 @@ func main() {
 	slog.SetDefault(slog.New(slog.NewTextHandler(io.Discard, nil)))
 	svc.SetSink(nil)
 	c := &checker{r: r, debug: os.Getenv("C37_DEBUG") != ""}
-	n := r.N(500, 15000)
+	n := r.N(400, 15000)
 	workers := 4
 	if r.Thorough() {
 		workers = min(16, runtime.NumCPU())
